@@ -20,6 +20,7 @@ PROPS = {
     "C13": "c13_macros",
     "C15": "c15_binary",
     "C16": "c16_presentation",
+    "C17": "c17_faults",
     "C18": "c18_addr_range",
     "C19": "c19_unresolved",
 }
